@@ -236,6 +236,7 @@ impl<'a, 'tcx> Ctx<'a, 'tcx> {
                     }
                     AggregateKind::Closure(did, _) => {
                         o.push(("closure", J::s(defpath(tcx, *did))));
+                        o.push(("closure_dp", J::s(dp(tcx, *did))));
                     }
                     AggregateKind::Tuple => o.push(("tuple", J::Bool(true))),
                     AggregateKind::Array(_) => o.push(("array", J::Bool(true))),
@@ -278,6 +279,7 @@ impl<'a, 'tcx> Ctx<'a, 'tcx> {
                     Ok(Some(inst)) => {
                         let rd = inst.def_id();
                         o.push(("resolved", J::s(defpath(tcx, rd))));
+                        o.push(("resolved_dp", J::s(dp(tcx, rd))));
                         let ik = format!("{:?}", inst.def);
                         o.push(("ikind", J::s(ik.split('(').next().unwrap_or("").to_string())));
                         o.push(("local", J::Bool(rd.is_local())));
@@ -398,6 +400,7 @@ pub fn dump_body<'tcx>(
     let cx = Ctx { tcx, body, owner, inst };
     let mut o = J::obj();
     o.push(("path", J::s(defpath(tcx, owner))));
+    o.push(("dp", J::s(dp(tcx, owner))));
     o.push(("kind", J::s(format!("{:?}", tcx.def_kind(owner)))));
     o.push(("span", sp(tcx, body.span)));
     o.push(("arg_count", J::Num(body.arg_count as i128)));
